@@ -159,6 +159,7 @@ impl Direct {
         m.insert("evs".into(), Value::Array(evs.iter().map(ev_json).collect()));
         m.insert("done".into(), json!(done));
         m.insert("live".into(), json!(live));
+        m.insert("alive".into(), json!(crate::dsl::alive()));
         Obs { line, new_ops, kinds: vec![] }
     }
 }
@@ -255,6 +256,7 @@ impl StreamHost {
         m.insert("evs".into(), Value::Array(evs));
         m.insert("done".into(), json!(self.ended));
         m.insert("live".into(), json!(live));
+        m.insert("alive".into(), json!(crate::dsl::alive()));
         Obs { line, new_ops, kinds: vec![] }
     }
 }
@@ -316,6 +318,7 @@ impl CoreHost {
         m.insert("effs".into(), Value::Array(ej));
         m.insert("log".into(), Value::Array(delta));
         m.insert("xt".into(), json!(self.core.verif_executor_tasks()));
+        m.insert("alive".into(), json!(crate::dsl::alive()));
         m.insert(
             "maxin".into(),
             json!(self.ctx.max_in_update.load(Ordering::SeqCst)),
@@ -471,6 +474,7 @@ impl BridgeHost {
         m.insert("effs".into(), Value::Array(ej));
         m.insert("log".into(), Value::Array(delta));
         m.insert("xt".into(), json!(xt));
+        m.insert("alive".into(), json!(crate::dsl::alive()));
         m.insert(
             "reg".into(),
             Value::Array(reg.iter().map(|(i, k)| json!({"id":i,"kind":k})).collect()),
